@@ -229,6 +229,49 @@ class color_stop:
         "colour-and-index-kept": lambda result, calls: (result.color.red, result.color.green, result.color.blue) == (calls[_FS][0].result.red, calls[_FS][0].result.green, calls[_FS][0].result.blue)
         and same(result.color.palette_index, calls[_FS][0].result.palette_index),
         "parsed-from-the-stop-colour": lambda stop_el, calls: calls[_FS][0].args.s == stop_el.attrib["stop-color"],
-        "offset": lambda stop_el, result: result.stopOffset == ufn("svg_number", "real", stop_el.attrib["offset"]),
+        # SVG clamps a stop's offset to [0, 1]
+        "offset": lambda stop_el, result: result.stopOffset == _clamp01(ufn("svg_number", "real", stop_el.attrib["offset"])),
+    }
+    native = False
+
+
+def _clamp01(v):
+    return 0.0 if v < 0 else (1.0 if v > 1 else v)
+
+
+_STOP_EL = lambda: Obj(attrib=Const({"offset": Str, "stop-color": Str}))
+_GRAD_EL = lambda spread, n: Elem("linearGradient", attrib=Const(dict({"spreadMethod": spread} if spread else {})), kids=[_STOP_EL() for _ in range(n)])
+
+
+def _svg_offsets(el):
+    """SVG's reading of the stop offsets: clamped to [0, 1], each at least its predecessor"""
+    out = []
+    for ch in el.children:
+        v = _clamp01(ufn("svg_number", "real", ch.attrib["offset"]))
+        out.append(v if not out else (out[-1] if v < out[-1] else v))
+    return out
+
+
+@contract("nanoemoji.color_glyph._common_gradient_parts", props=["C01", "C02", "C17"])
+class common_gradient_parts:
+    """the colour line of a gradient element: SVG's stop list (document order, offsets clamped
+    and made non-decreasing) and its spread method; an unknown spread method is an error"""
+
+    stubs = ("nanoemoji.colors.Color.fromstring",)
+    args = {
+        "el": OneOf(*[_GRAD_EL(sp, n) for sp in (None, "pad", "repeat", "reflect", "Reflect", "mirror", "") for n in (1, 2, 3)]),
+        "shape_opacity": Real,
+    }
+    scope = "finite: one to three stops; spreadMethod absent, pad, repeat, reflect, Reflect, mirror or empty"
+    raises = {"ValueError": lambda el: el.attrib.get("spreadMethod", "pad").upper() not in ("PAD", "REPEAT", "REFLECT")}
+    ensures = {
+        "extend-is-the-spread-method": lambda el, result: result["extend"].name == el.attrib.get("spreadMethod", "pad").upper(),
+        "one-stop-per-stop-element": lambda el, result: len(result["stops"]) == len(el.children),
+        "colours-parsed-in-document-order": lambda el, calls: len(calls[_FS]) == len(el.children) and all(calls[_FS][i].args.s == el.children[i].attrib["stop-color"] for i in range(len(el.children))),
+        "colours-kept-in-document-order": lambda el, result, calls: all(
+            result["stops"][i].color.red == calls[_FS][i].result.red and result["stops"][i].color.green == calls[_FS][i].result.green and result["stops"][i].color.blue == calls[_FS][i].result.blue
+            for i in range(len(el.children))
+        ),
+        "offsets-as-svg-reads-them": lambda el, result: all(result["stops"][i].stopOffset == _svg_offsets(el)[i] for i in range(len(el.children))),
     }
     native = False
